@@ -101,13 +101,26 @@ def point_octets(pt):
     return b"\x04" + M.i2b(pt[0]) + M.i2b(pt[1])
 
 
+# > 0: an honest signer that tries this many nonces and sends the shortest DER signature it found (r or s with leading zero bytes give
+# 69 bytes and fewer - about one signature in 500 by chance); every such signature is valid
+SHORT_SIG_TRIES = 0
+
+
 def sm2_sign(d, msg, rng, ident=M.DEFAULT_ID):
     pub = pub_of(d)
     e = M.digest_for_sign(pub, ident, msg)
-    while True:
-        rs = M.sign_with_k(d, e, rng.scalar())
-        if rs:
-            return D.enc_sig(*rs)
+    best = None
+    for _ in range(max(1, SHORT_SIG_TRIES)):
+        while True:
+            rs = M.sign_with_k(d, e, rng.scalar())
+            if rs:
+                break
+        sig = D.enc_sig(*rs)
+        if best is None or len(sig) < len(best):
+            best = sig
+        if len(best) < 70:
+            break
+    return best
 
 
 def sm2_encrypt(pub, msg, rng):
